@@ -51,6 +51,22 @@ CLAIMS = {
          "TLC exhausts the EBPPS bookkeeping contract (n, cumulative weight, maximum weight, k, c = min(k, W/wmax) as an exact rational, result sizes floor/ceil(c), merge in both directions) for small constants; recorded histories (updates, merges lvalue/rvalue in both size orders incl. empty operands, results, serialization) are validated by TLC against it; proportional inclusion by a seeded verdict",
          "trusted: TLC; get_c() is compared with the exact rational within one unit of 1e-4",
          TECH, "DESIGN.md 6 C18"),
+ "C07": ("model_checking",
+         "TLC exhausts design models of KLL (levels, integer capacities, compress-while-updating, merge), REQ (compactors, sections, compaction ranges) and classic quantiles (base buffer, bit pattern, carry propagation) with coins as explicit parameters, refining one contract instantiated for the three families (n, exact min/max, weights sum to n, num_retained, published space bound, exact while nothing compacted); recorded histories over item types, stream shapes, k ranges and merge trees are validated by TLC against the contract, including the sorted-view operators Rank / Quantile / CDF / PMF evaluated in integers and the refusal of invalid queries",
+         "trusted: TLC; items are abstracted to their rank under the comparator (order-isomorphism); rank*n is logged as an integer with a checked residual",
+         TECH, "DESIGN.md 6 C07"),
+ "C08": ("model_checking",
+         "(a) exhaustive coin trees on the real code: a fixed scenario per family (also with merges) is run once per coin string for all 2^f strings through the coin hook; TLC requires every leaf to consume the same number of flips and the weights below every value, summed over all leaves, to equal 2^f times the true weight exactly; (b) TLC checks the martingale invariant and the outcome-independent shadow machine (REQ: ensemble semantics) on the design models; (c) published-error acceptance over seeded long-stream trials",
+         "trusted: TLC, the guarded coin hook random_utils::random_bit; (c) is an acceptance predicate over samples (>= 6 standard errors + stated slack)",
+         "exhaustive coin-tree enumeration of the real sketches through the coin hook judged by a TLA+ specification; martingale invariant model-checked on the design models", "DESIGN.md 6 C08"),
+ "C11": ("fault_enumeration",
+         "for every image of a catalogue of 161 (quick) / 205 (thorough) images of all families: every strict prefix on the bytes, stream and wrap paths and every preamble byte x 7 replacement values, each attempt run behind a guard page with an allocation cap, RLIMIT_AS, an alarm and a tracking allocator (thorough also under ASan); the outcome trace is validated by TLC against the Reader contract (Throw always allowed; Same only when the prefix still holds all information; Usable after corruption; OOB / Crash / Hang / Leak / HugeAlloc / Different forbidden)",
+         "trusted: TLC, the guard-page / allocator / rlimit instrumentation as event source; infoLen is computed by the harness from the documented layouts; 8 recorded known findings (stream pre-allocation from a corrupted count in 7 families, CPC decoder trusting its preamble) are matched by family / path / mode / outcome",
+         "exhaustive fault enumeration (prefix truncation, preamble byte corruption) of the real readers, outcomes judged by a TLA+ contract via TLC", "DESIGN.md 6 C11"),
+ "C19": ("model_checking",
+         "TLC enumerates all interleavings (modulo slot symmetry and commuting calls) of a 13-call lifecycle alphabet over 3 slots to depth 4..6 from the Lifecycle contract; every behaviour is replayed on 19 sketch / operator types instantiated with an id-carrying tracking allocator and an instrumented item type, and the resulting event trace (calls + Alloc/Dealloc + item ctor/dtor/use) is validated by TLC against the contract: equal histories give equal digests, copies are independent, moves transfer the state and leave the source destructible / assignable, deallocation matches allocation (size, allocator instance), no use after destruction, nothing live at the end",
+         "trusted: TLC, the tracking allocator and probe item as event sources; determinism through a constant coin source and re-seeding before every call; thorough tier repeats the replay under ASan",
+         "TLC-generated behaviours (spec -> impl) replayed on the real classes; trace validation of the replay against the TLA+ lifecycle contract", "DESIGN.md 6 C19"),
 }
 
 PENDING_REASON = "check not yet built in this round (work in progress; DESIGN.md section 10 build order)"
